@@ -78,7 +78,7 @@ Definition cut_chunk (c : cmatch) (limit : nat) : outcome cmatch :=
           let rs := firstn limit (cm_ranges c) in
           match n with
           | O => Ok {| cm_content := cm_content c; cm_ranges := rs; cm_sym := cm_sym c |}
-          | _ => match trim_content_old (cm_content c) n with
+          | _ => match trim_content (cm_content c) n with
                  | None => Panic 2
                  | Some ct => Ok {| cm_content := ct; cm_ranges := rs; cm_sym := cm_sym c |}
                  end
